@@ -155,6 +155,17 @@ impl Compound {
         meter == Some(1) && second == Some(-2)
     }
 
+    /// Test if a unit with an offset from its base (like `°C`) is used in any
+    /// other way than on its own with a power of one.
+    fn has_misplaced_offset(&self) -> bool {
+        self.names.iter().any(|(unit, state)| {
+            matches!(
+                unit.conversion(),
+                Some(Conversion::Offset(..) | Conversion::Methods(..))
+            ) && (self.names.len() != 1 || state.power != 1)
+        })
+    }
+
     /// Calculate the factor for coercing one unit to another.
     pub(crate) fn factor(&self, other: &Self, value: &mut Rational) -> Result<bool, CompoundError> {
         if self.is_empty() || other.is_empty() {
@@ -177,6 +188,11 @@ impl Compound {
             if lhs != rhs {
                 return Ok(false);
             }
+        }
+
+        // A scale with an offset only converts when it stands alone.
+        if self.has_misplaced_offset() || other.has_misplaced_offset() {
+            return Err(CompoundError);
         }
 
         for (name, state) in &other.names {
